@@ -60,6 +60,45 @@ void harness(void)
     VF_ASSERT((rc == 0) == (want != 0), "C02/C03: local part accepted iff the reference grammar accepts");
     VF_ASSERT(rc != 0 || n >= 1, "empty local part never accepted");
 
+#ifdef VF_CHECK_CODES
+    /* C15: the reported reason names a condition that actually holds of the input */
+    {
+        int hi = 0, ctl = 0, spec = 0, quo = 0, dd = 0, ws = 0, cr = 0;
+        for (unsigned i = 0; i < VF_N; i++) {
+            if (i >= n) break;
+            unsigned ch = s[i];
+            if (ch >= 0x80) hi = 1;
+            if (ch < 0x20 || ch == 0x7f) ctl = 1;
+            if (ch == ' ' || (ref_special(ch) && ch != '.' && ch != '"')) spec = 1;
+            if (ch == '"') quo = 1;
+            if (ch == '.' && i + 1 < n && s[i + 1] == '.') dd = 1;
+            if (ref_ws(ch)) ws = 1;
+            if (ch == '\r') cr = 1;
+        }
+        VF_ASSERT((rc == -EEAV_LPART_EMPTY) == (n == 0), "C15: 'local-part is empty' iff it is empty");
+        VF_ASSERT(rc != -EEAV_LPART_NOT_ASCII || hi, "C15: 'non-ascii characters' only if a byte >= 0x80 is present");
+        VF_ASSERT(rc != -EEAV_LPART_CTRL_CHAR || ctl, "C15: 'control characters' only if a control byte is present");
+        VF_ASSERT(rc != -EEAV_LPART_SPECIAL || spec
+#ifdef RFC6531_FOLLOW_RFC20
+                  || 1
+#endif
+                  , "C15: 'special characters' only if a special or space byte is present");
+        VF_ASSERT((rc != -EEAV_LPART_MISPLACED_QUOTE && rc != -EEAV_LPART_UNQUOTED) || quo, "C15: quote errors only if a DQUOTE is present");
+        VF_ASSERT(rc != -EEAV_LPART_TOO_MANY_DOTS || dd, "C15: 'too many dots' only if the local part contains '..'");
+        VF_ASSERT(rc != -EEAV_LPART_MISPLACED_DOT || (n >= 1 && (s[0] == '.' || s[n - 1] == '.')), "C15: 'misplaced dot' only if the first or last byte is a dot");
+        VF_ASSERT(rc != -EEAV_LPART_UNQUOTED_FWS || ws, "C15: 'unquoted characters' (FWS) only if a whitespace byte is present");
+        VF_ASSERT(rc != -EEAV_LPART_INVALID_FOLDING || cr, "C15: 'invalid folding' only if a CR is present");
+        VF_ASSERT(rc != -EEAV_LPART_INVALID_UTF8 || !ref_utf8_wellformed(s, n), "C15: 'invalid UTF-8' only if the bytes are ill-formed");
+        VF_ASSERT(rc == 0 || (rc <= -EEAV_LPART_EMPTY && rc >= -EEAV_LPART_INVALID_UTF8 && rc != -EEAV_LPART_TOO_LONG),
+                  "C15: a local-part validator reports only local-part codes");
+        VF_COVER(rc == -EEAV_LPART_TOO_MANY_DOTS, "code-too-many-dots");
+        VF_COVER(rc == -EEAV_LPART_MISPLACED_DOT, "code-misplaced-dot");
+        VF_COVER(rc == -EEAV_LPART_SPECIAL, "code-special");
+        VF_COVER(rc == -EEAV_LPART_CTRL_CHAR, "code-ctrl");
+        VF_COVER(rc == -EEAV_LPART_MISPLACED_QUOTE, "code-misplaced-quote");
+        VF_COVER(rc == -EEAV_LPART_UNQUOTED, "code-unquoted");
+    }
+#endif
     VF_COVER(rc == 0 && n >= 3 && s[0] == '"', "accepted-quoted");
     VF_COVER(rc == 0 && n >= 3 && s[1] == '.', "accepted-dotted");
     VF_COVER(rc != 0 && n >= 2, "rejected");
